@@ -21,7 +21,8 @@ CCBatches == { <<"CCTP", <<Cp0>>>>, <<"CCTP", <<Cp1>>>>, <<"CCTP", <<Cp0, Cp1>>>
                <<"HYP", <<Cp1>>>>, <<"HYP", <<Cp2, Cp1>>>>, <<"INT", <<CpNoble>>>>, <<"CCTP", <<>>>> }
 BadBatches == { <<"CCTP", <<Cp1, CpChan>>>>, <<"PUNKNOWN", <<Cp0>>>>, <<"IBC", <<Cp0>>>>, <<"HYP", <<CpNoble>>>> }
 CCMsgs == { PauseCC("AUTH", b[1], b[2]) : b \in CCBatches \cup BadBatches } \cup { UnpauseCC("AUTH", b[1], b[2]) : b \in CCBatches \cup BadBatches }
-            \cup { PauseCC("M", "CCTP", <<Cp0>>), UnpauseCC("M", "CCTP", <<Cp0>>) }
+            \cup { PauseCC("M", "CCTP", <<Cp0>>), UnpauseCC("M", "CCTP", <<Cp0>>), PauseCC("M", "CCTP", <<>>), UnpauseCC("M", "CCTP", <<>>),
+                   PauseCC("EMPTY", "HYP", <<>>), UnpauseCC("ORB", "CCTP", <<>>), PauseCC("M", "CCTP", <<Cp0, Cp0>>) }
 ActMsgs == { PauseAction(s, a) : s \in Signers, a \in {"FEE", "SWAP"} } \cup { UnpauseAction(s, a) : s \in Signers, a \in {"FEE", "SWAP"} }
             \cup { PauseAction("AUTH", a) : a \in {"UNSUPPORTED", "AUNKNOWN", "EMPTY", "N1"} }
 ParamVals == IF PauseSet = "full" THEN {0, 2, 64, -1} ELSE {0, 2}
@@ -40,7 +41,8 @@ SmallAlphabet == { PauseProtocol("AUTH", "CCTP"), UnpauseProtocol("AUTH", "CCTP"
                    PauseCC("AUTH", "CCTP", <<Cp0>>), PauseCC("AUTH", "CCTP", <<Cp0, Cp1>>), UnpauseCC("AUTH", "CCTP", <<Cp0>>),
                    PauseCC("AUTH", "HYP", <<Cp1>>), PauseCC("AUTH", "CCTP", <<Cp1, CpChan>>), PauseCC("AUTH", "CCTP", <<>>),
                    PauseAction("AUTH", "FEE"), UnpauseAction("AUTH", "FEE"), PauseAction("M", "FEE"),
-                   UpdateParams("AUTH", 2), UpdateParams("AUTH", 0), UpdateParams("M", 7), PauseProtocol("M", "CCTP"), ReimportIn }
+                   UpdateParams("AUTH", 2), UpdateParams("AUTH", 0), UpdateParams("M", 7), PauseProtocol("M", "CCTP"), ReimportIn,
+                   PauseCC("M", "CCTP", <<>>), UnpauseCC("M", "CCTP", <<>>), UnpauseProtocol("M", "CCTP"), UnpauseAction("M", "FEE") }
                  \cup Probes \cup { Xfer(0, "uusdc", 1000, [FwINT("U") EXCEPT !.pt = n], <<>>) : n \in {2, 3} }
 
 StepProps == [][ /\ Prop_C08(last') /\ Prop_C09(last') /\ Prop_C10(last') /\ Prop_C18(last')
